@@ -69,8 +69,8 @@ func Split(x float64) (m uint64, e int) {
 	return m, be - 1075
 }
 
-// decOf returns the exact decimal expansion of m * 2^e (m > 0).
-func decOf(m *big.Int, e int) Dec {
+// DecOf returns the exact decimal expansion of m * 2^e (m > 0).
+func DecOf(m *big.Int, e int) Dec {
 	n := new(big.Int).Set(m)
 	shift := 0
 	if e < 0 {
@@ -98,7 +98,7 @@ func decOf(m *big.Int, e int) Dec {
 // Exact returns the exact decimal expansion of |x| (x finite, non-zero).
 func Exact(x float64) Dec {
 	m, e := Split(x)
-	return decOf(new(big.Int).SetUint64(m), e)
+	return DecOf(new(big.Int).SetUint64(m), e)
 }
 
 func cmpDec(a, b Dec) int {
@@ -200,15 +200,15 @@ func Shortest(x float64) (s []byte, n int) {
 	b := math.Float64bits(x)
 	mant := b & (1<<52 - 1)
 	be := int(b>>52) & 0x7ff
-	d := decOf(new(big.Int).SetUint64(m), e)
+	d := DecOf(new(big.Int).SetUint64(m), e)
 	// rounding interval [lo, hi]: the midpoints to the neighbouring doubles.
 	var lo, hi Dec
-	hi = decOf(new(big.Int).SetUint64(2*m+1), e-1)
+	hi = DecOf(new(big.Int).SetUint64(2*m+1), e-1)
 	if mant == 0 && be > 1 {
 		// x is a power of two: the lower neighbour is half as far away
-		lo = decOf(new(big.Int).SetUint64(4*m-1), e-2)
+		lo = DecOf(new(big.Int).SetUint64(4*m-1), e-2)
 	} else {
-		lo = decOf(new(big.Int).SetUint64(2*m-1), e-1)
+		lo = DecOf(new(big.Int).SetUint64(2*m-1), e-1)
 	}
 	closed := m&1 == 0 // ties round to the even significand
 	inside := func(c Dec) bool {
@@ -291,11 +291,11 @@ func ToString(x float64) string {
 	s, n := Shortest(x)
 	// the trailing zeros of a k-digit s never survive (s is not divisible by 10)
 	s = bytes.TrimRight(s, "0")
-	return layout(s, n)
+	return Layout(s, n)
 }
 
-// layout is steps 6-10 of 9.8.1 for digits s (k = len(s)) and n.
-func layout(s []byte, n int) string {
+// Layout is steps 6-10 of 9.8.1 for digits s (k = len(s)) and n.
+func Layout(s []byte, n int) string {
 	k := len(s)
 	switch {
 	case k <= n && n <= 21:
